@@ -10,10 +10,10 @@ import (
 // AccessLog records heap accesses for the conflict-freedom argument (C06) and
 // the tree frame condition (C05).
 type AccessLog struct {
-	On     bool
-	Writes map[int]string // object id -> first write description (objects that pre-existed the window)
-	Reads  map[int]bool
-	Since  int // objects with id >= Since were allocated inside the window
+	On       bool
+	Writes   map[int]string // object id -> first write description (objects that pre-existed the window)
+	Reads    map[int]bool
+	Since    int            // objects with id >= Since were allocated inside the window
 	Unlocked map[int]string // pre-existing objects written without the mutex / without pool ownership
 }
 
